@@ -132,6 +132,14 @@ inline RawGram genGrammar(Choices &c, const GramOpts &o) {
         g.rules.push_back(ru);
       }
   }
+  // the construction above numbers nonterminals top-down (first rules refer to later nonterminals); half of the grammars
+  // get another rule order (the first rule still belongs to the start symbol): rule order decides the numbering of the
+  // nonterminals, the order of situations in a set and the order in which fix-points visit the rules
+  if (c.chance(50) && g.rules.size() > 2) {
+    std::string start = g.rules[0].lhs;
+    for (size_t k = g.rules.size() - 1; k > 0; k--) std::swap(g.rules[k], g.rules[c.upto((int)k)]);
+    for (size_t k = 0; k < g.rules.size(); k++) if (g.rules[k].lhs == start) { std::swap(g.rules[0], g.rules[k]); break; }
+  }
   assignTranslations(c, g, o, shareNames);
   return g;
 }
@@ -145,7 +153,9 @@ inline RawGram genSeqGrammar(Choices &c, const GramOpts &o) {
   for (int t = 0; t < nT; t++) g.terms.push_back({tname(t), 'a' + t});
   int k = c.range(2, 4);
   int nN = 1 + k + (c.chance(40) ? 1 : 0); // S, components, optional nested one
-  auto term = [&]() { return tname(c.chance(60) ? 0 : c.upto(nT - 1)); };
+  static const int sameBias[] = {60, 25, 85}; // how often the first letter is used: many / few / very many ways to split an input
+  int same = sameBias[c.upto(2)];
+  auto term = [&]() { return tname(c.chance(same) ? 0 : c.upto(nT - 1)); };
   RawRule top; top.lhs = nname(0);
   for (int i = 1; i <= k; i++) {
     if (c.chance(15)) top.rhs.push_back(term());
@@ -179,6 +189,54 @@ inline RawGram genSeqGrammar(Choices &c, const GramOpts &o) {
     if (!used) { RawRule r; r.lhs = nname(c.range(1, k)); r.rhs = {nname(nN - 1)}; g.rules.push_back(r); }
   }
   assignTranslations(c, g, o, c.chance(15));
+  return g;
+}
+
+// Block template for error recovery: nested brackets of 1-3 kinds around atoms or separated lists, with error rules of
+// several shapes inside the brackets and in the lists (several sets with `. error' on the way back from an error, error
+// rules that match a few tokens and then reach `. error' again).
+inline RawGram genBlockGrammar(Choices &c, const GramOpts &o) {
+  RawGram g;
+  int k = c.range(1, 3);
+  bool list = c.chance(60);
+  // terminals: a atom, b separator, then bracket pairs
+  int nT = 2 + 2 * k;
+  for (int t = 0; t < nT; t++) g.terms.push_back({tname(t), 'a' + t});
+  const std::string E = nname(0), L = nname(1), atom = tname(0), sep = tname(1);
+  auto open = [&](int i) { return tname(2 + 2 * i); };
+  auto close = [&](int i) { return tname(3 + 2 * i); };
+  auto add = [&](const std::string &lhs, std::vector<std::string> rhs) { RawRule r; r.lhs = lhs; r.rhs = rhs; g.rules.push_back(r); };
+  add(E, {atom});
+  if (c.chance(30)) add(E, {atom, atom});
+  for (int i = 0; i < k; i++) {
+    bool useList = list && c.chance(70);
+    add(E, {open(i), useList ? L : E, close(i)});
+    int nerr = c.upto(2);
+    for (int j = 0; j < nerr; j++)
+      switch (c.upto(5)) {
+      case 0: add(E, {open(i), "error", close(i)}); break;
+      case 1: add(E, {open(i), "error", sep, "error", close(i)}); break;
+      case 2: add(E, {open(i), "error", sep, close(i)}); break;
+      case 3: add(E, {open(i), E, sep, "error", close(i)}); break;
+      case 4: add(E, {open(i), "error"}); break;
+      case 5: add(E, {"error", close(i)}); break;
+      }
+  }
+  if (list) {
+    add(L, {E});
+    add(L, {L, sep, E});
+    if (c.chance(50)) add(L, {"error"});
+    if (c.chance(50)) add(L, {L, sep, "error"});
+    if (c.chance(25)) add(L, {"error", sep, E});
+    bool used = false;
+    for (auto &r : g.rules) if (r.lhs == E) for (auto &x : r.rhs) if (x == L) used = true;
+    if (!used) add(E, {open(0), L, close(0)});
+  }
+  if (c.chance(25)) add(E, {"error"});
+  bool hasErr = false;
+  for (auto &r : g.rules) for (auto &x : r.rhs) if (x == "error") hasErr = true;
+  if (!hasErr) add(E, {open(0), "error", close(0)});
+  assignTranslations(c, g, o, false);
   return g;
 }
 
@@ -322,11 +380,11 @@ struct SubChoices {
   explicit SubChoices(uint32_t seed, size_t n) { uint64_t x = seed * 2654435761u + 12345; for (size_t i = 0; i < n; i++) { x = x * 6364136223846793005ULL + 1442695040888963407ULL; v.push_back((uint32_t)(x >> 33)); } }
 };
 struct WideInfo { int shape = 0, copies = 0; bool singleP = false; std::string inner; std::vector<std::string> innerOf; };
-inline RawGram genWideGrammar(Choices &c, const GramOpts &o0, WideInfo &wi) {
+inline RawGram genWideGrammar(Choices &c, const GramOpts &o0, WideInfo &wi, int maxUnits = 40) {
   GramOpts o = o0; o.maxT = std::min(o.maxT, 3); o.maxN = std::min(o.maxN, 3); o.extraRules = std::min(o.extraRules, 2);
   RawGram base = genGrammar(c, o);
   wi.shape = c.upto(1);
-  int N = wi.copies = 20 * c.range(1, 40);
+  int N = wi.copies = 20 * c.range(1, maxUnits);
   int codeMode = c.upto(2);
   int nextCode = codeMode == 1 ? 256 : 0;
   auto newCode = [&]() { int k = nextCode++; return codeMode == 2 ? 1000 + k * 9973 : k; };
